@@ -807,6 +807,75 @@ func checkWarnings(p *Program, r *Report, pk *ssa.Package, runner *ssa.Function)
 		}
 		return false
 	}
+	// warningSink: a helper of the package that appends its string parameter to a field of the object it is called on
+	// (`func (w *warningLog) note(msg string) { … w.messages = append(w.messages, msg) }`), where Initialise returns
+	// that field of an object of the same type as its warnings. Returns the index of the string parameter, or -1.
+	warningSink := func(f *ssa.Function) int {
+		if f == nil || f.Blocks == nil || fnPkg(f) != fnPkg(initialise) || len(f.Params) < 2 {
+			return -1
+		}
+		idx := -1
+		for _, c := range callsIn(f) {
+			b, ok := c.Common().Value.(*ssa.Builtin)
+			if !ok || b.Name() != "append" || len(c.Common().Args) != 2 {
+				continue
+			}
+			// append(obj.field, param…) stored back into obj.field
+			fld, base, okf := loadedField(origin1OrSelf(c.Common().Args[0]))
+			if !okf || origin1(base) != ssa.Value(f.Params[0]) {
+				continue
+			}
+			stored := false
+			if cv, ok := c.(*ssa.Call); ok {
+				for _, ref := range refs(cv) {
+					if st, ok := ref.(*ssa.Store); ok && st.Val == ssa.Value(cv) {
+						if n2, b2, ok2 := fieldName(st.Addr); ok2 && n2 == fld && origin1(b2) == ssa.Value(f.Params[0]) {
+							stored = true
+						}
+					}
+				}
+			}
+			if !stored {
+				continue
+			}
+			// the appended element(s): a slice literal holding the parameter
+			for i, prm := range f.Params {
+				if i == 0 {
+					continue
+				}
+				if dependsOn(c.Common().Args[1], func(x ssa.Value) bool { return x == ssa.Value(prm) }, map[ssa.Value]bool{}) {
+					idx = i
+				}
+				for _, ref := range refs(prm) {
+					if st, ok := ref.(*ssa.Store); ok && st.Val == ssa.Value(prm) {
+						if ia, ok := st.Addr.(*ssa.IndexAddr); ok && vecBase(ia.X) == vecBase(c.Common().Args[1]) {
+							idx = i
+						}
+					}
+				}
+			}
+		}
+		if idx < 0 {
+			return -1
+		}
+		// Initialise returns that kind of object's field as its warnings
+		for _, ret := range returnsOf(initialise) {
+			if warnIdx >= len(ret.Results) {
+				continue
+			}
+			for _, o := range origins(ret.Results[warnIdx]) {
+				if _, base, ok := loadedField(o); ok && o != nil && types.Identical(base.Type(), f.Params[0].Type()) {
+					return idx
+				}
+			}
+		}
+		return -1
+	}
+	passedToSink := func(y ssa.CallInstruction, x ssa.Value) bool {
+		f := y.Common().StaticCallee()
+		idx := warningSink(f)
+		return idx >= 0 && idx < len(y.Common().Args) && y.Common().Args[idx] == x
+	}
 	appendsOf := func(v ssa.Value) bool {
 		// v flows into an append whose result reaches the returned warnings
 		seen := map[ssa.Value]bool{}
@@ -834,8 +903,32 @@ func checkWarnings(p *Program, r *Report, pk *ssa.Package, runner *ssa.Function)
 					if b, ok := y.Common().Value.(*ssa.Builtin); ok && b.Name() == "append" {
 						return reachesWarnings(y, map[ssa.Value]bool{})
 					}
+					if passedToSink(y, x) {
+						return true
+					}
 					if walk(y) {
 						return true
+					}
+				case *ssa.Return:
+					// handed back by a helper: continue with the corresponding result at its call sites
+					fn := y.Parent()
+					for ri, res := range y.Results {
+						if res != x {
+							continue
+						}
+						for _, cs := range callSites[fn] {
+							if fn.Signature.Results().Len() == 1 {
+								if walk(cs) {
+									return true
+								}
+								continue
+							}
+							for _, r2 := range refs(cs) {
+								if ex, ok := r2.(*ssa.Extract); ok && ex.Index == ri && walk(ex) {
+									return true
+								}
+							}
+						}
 					}
 				case *ssa.MakeInterface:
 					if walk(y) {
@@ -883,28 +976,60 @@ func checkWarnings(p *Program, r *Report, pk *ssa.Package, runner *ssa.Function)
 			}
 		}
 		nW++
-		var store *ssa.Store
-		if valEx != nil {
-			for _, ref := range refs(valEx) {
-				if st, ok := ref.(*ssa.Store); ok && st.Val == valEx {
-					if _, isElem := st.Addr.(*ssa.IndexAddr); isElem {
-						store = st
+		var store ssa.Instruction
+		lookupAt := ssa.Instruction(c)
+		var findStore func(v ssa.Value, depth int)
+		findStore = func(v ssa.Value, depth int) {
+			if v == nil || depth > 2 {
+				return
+			}
+			for _, ref := range refs(v) {
+				switch y := ref.(type) {
+				case *ssa.Store:
+					if _, isElem := y.Addr.(*ssa.IndexAddr); isElem && y.Val == v {
+						store = y
+					}
+				case ssa.CallInstruction:
+					// element written through the array's setter: Set1(i, v), Set2(i, 0, v), Set(idx, v)
+					if nm := callName(y.Common()); (nm == "Set" || nm == "Set1" || nm == "Set2" || nm == "Set3") && recvOf(y.Common()) != nil {
+						if a := callArgs(y.Common()); len(a) > 0 && a[len(a)-1] == v {
+							store = y
+						}
+					}
+				case *ssa.Return:
+					fn := y.Parent()
+					for ri, res := range y.Results {
+						if res != v {
+							continue
+						}
+						for _, cs := range callSites[fn] {
+							for _, r2 := range refs(cs) {
+								if ex, ok := r2.(*ssa.Extract); ok && ex.Index == ri {
+									lookupAt = cs
+									findStore(ex, depth+1)
+								}
+							}
+						}
 					}
 				}
 			}
 		}
+		findStore(valEx, 0)
 		key := "sim.Initialise:param-value-applied"
 		if store == nil {
 			r.Fail("R17.5", key, p.Pos(c.Pos()), "the value found for a parameter (or its default) is never placed in the parameter vector")
 			continue
 		}
 		// every path from the lookup to the end of the iteration passes the store
-		loops := findLoops(c.Parent())
-		l := innermostLoop(loops, c.Block())
+		loops := findLoops(lookupAt.Parent())
+		l := innermostLoop(loops, lookupAt.Block())
 		bad := false
-		if l != nil && c.Block() != store.Block() {
-			reach := reachable(c.Block(), func(from *ssa.BasicBlock, i int) bool { return from.Succs[i] == store.Block() })
-			if reach[l.Header] && !(c.Block() == l.Header) {
+		if lookupAt.Parent() != store.Parent() {
+			l = nil
+		}
+		if l != nil && lookupAt.Block() != store.Block() {
+			reach := reachable(lookupAt.Block(), func(from *ssa.BasicBlock, i int) bool { return from.Succs[i] == store.Block() })
+			if reach[l.Header] && !(lookupAt.Block() == l.Header) {
 				bad = true
 			}
 		}
@@ -959,6 +1084,9 @@ func checkWarnings(p *Program, r *Report, pk *ssa.Package, runner *ssa.Function)
 			for _, i2 := range b.Succs[skip].Instrs {
 				if cc, ok := i2.(*ssa.Call); ok {
 					if bi, ok := cc.Common().Value.(*ssa.Builtin); ok && bi.Name() == "append" && reachesWarnings(cc, map[ssa.Value]bool{}) {
+						missing = true
+					}
+					if idx := warningSink(cc.Common().StaticCallee()); idx >= 0 {
 						missing = true
 					}
 				}
